@@ -19,6 +19,12 @@ from lib.proggen import ProgGen
 from lib.props.c01 import adversarial, mutate, vm_stream
 
 STRUCT = [
+    # break / continue inside a stored body (function / computed value) defined in a loop — also AFTER a nested definition inside that body
+    # has ended: the loop around the definition is not the body's loop (rejected, or compiled to a jump inside the body's own code)
+    "i = 0; while i < 3 { i = i + 1; func f(a) { &x = a + 1; if a > 1 { break }; x }; f(i) }; i",
+    "i = 0; while i < 3 { i = i + 1; func f(a) { func g() { 1 }; if a > 1 { continue }; g() }; f(i) }; i",
+    "i = 0; while i < 3 { i = i + 1; &c = `{% &d = 1; if i > 1 { break }; d %}`; c }; i",
+    "i = 0; while i < 2 { i = i + 1; j = 0; while j < 2 { j = j + 1; func f(a) { &x = a; func h() { 2 }; break }; f(j) } }; i",
     # element / attribute / slice assignments where a value is expected (inside a function body the stack below them is empty)
     "func f(d) { x = (d.b = 1) }; f({})", "func f(d) { 1 + (d.b = 1) }; f({})", "func f(a) { [a[0] = 5, 2] }; f([1])", "func f(a) { y = a[0:1] = [7] }; f([1,2])",
     "func f(d) { (d['k'] = 2) ? 3 : 4 }; f({})", "func g(v) { v }; func f(d) { g(d.b = 1) }; f({})", "d = {}; x = d.a = d.b = 3; x",
